@@ -131,16 +131,21 @@ impl VfStr {
 #[verifier::external_body]
 pub struct GenerationSource { inner: usize }
 impl GenerationSource {
+    /// the value the next choose_index(max) call returns: a function of the source's state (both sources are
+    /// deterministic streams); uninterpreted -- the contracts only use it to say WHICH alternative was taken
+    pub uninterp spec fn draw_index(&self, max: usize) -> usize;
+    /// the most recent gen_bool() result
+    pub uninterp spec fn last_bool(&self) -> bool;
     #[verifier::external_body]
     pub fn choose_index(&mut self, max: usize) -> (r: usize)
-        ensures max > 0 ==> r < max, max == 0 ==> r == 0
+        ensures max > 0 ==> r < max, max == 0 ==> r == 0, r == old(self).draw_index(max)
     { unimplemented!() }
     #[verifier::external_body]
     pub fn gen_range(&mut self, min: usize, max: usize) -> (r: usize)
         ensures min < max ==> min <= r < max, min >= max ==> r == min
     { unimplemented!() }
     #[verifier::external_body]
-    pub fn gen_bool(&mut self) -> (r: bool) { unimplemented!() }
+    pub fn gen_bool(&mut self) -> (r: bool) ensures r == final(self).last_bool() { unimplemented!() }
     #[verifier::external_body]
     pub fn gen_u8(&mut self) -> (r: u8) { unimplemented!() }
     #[verifier::external_body]
@@ -574,8 +579,16 @@ pub fn vf_version_ge(a: Version, b: Version) -> (r: bool)
 { unimplemented!() }
 
 #[verifier::external_body]
-pub fn vf_version_lt2(v: Version) -> (r: bool)
-    ensures r == (ver_num(v) < 2)
+pub fn vf_version_gt(a: Version, b: Version) -> (r: bool)
+    ensures r == (ver_num(a) > ver_num(b))
+{ unimplemented!() }
+#[verifier::external_body]
+pub fn vf_version_le(a: Version, b: Version) -> (r: bool)
+    ensures r == (ver_num(a) <= ver_num(b))
+{ unimplemented!() }
+#[verifier::external_body]
+pub fn vf_version_lt(a: Version, b: Version) -> (r: bool)
+    ensures r == (ver_num(a) < ver_num(b))
 { unimplemented!() }
 /// `version as u8` of the fieldless enum: declaration order
 #[verifier::external_body]
@@ -606,6 +619,8 @@ pub fn vf_pickle_opcodes(version: u8) -> (r: Option<&'static [OpcodeKind]>)
         r is Some ==> (forall|i: int| 0 <= i < r.unwrap()@.len() ==> ref_proto(#[trigger] r.unwrap()@[i]) <= version),
         r is Some ==> r.unwrap()@.contains(OpcodeKind::None),
         r is Some ==> r.unwrap()@.contains(OpcodeKind::Int),
+        // nothing missing (Kani u7_tables_exact, inclusion vocabulary <= table)
+        r is Some ==> (forall|op: OpcodeKind| ref_proto(op) <= version ==> #[trigger] r.unwrap()@.contains(op)),
 { unimplemented!() }
 pub open spec fn vf_int_like(op: OpcodeKind) -> bool {
     op == OpcodeKind::Int || op == OpcodeKind::Long || op == OpcodeKind::Long1 || op == OpcodeKind::Long4
